@@ -743,6 +743,20 @@ fn restore_caller_save_registers(
     }
 }
 
+/// This function adds a non-negative offset into a jump table to a register. The immediate operand
+/// of an `ADD` instruction only has 12 bits, which can optionally be shifted left by 12, so an
+/// offset that does not fit is split into two additions.
+fn add_offset(register: Register, immediate: Immediate, instructions: &mut Vec<Code>) {
+    let low = immediate.val & 0xFFF;
+    let high = immediate.val - low;
+    if high != 0 {
+        instructions.push(Code::ADDI(register, register, high.into()));
+    }
+    if low != 0 || high == 0 {
+        instructions.push(Code::ADDI(register, register, low.into()));
+    }
+}
+
 impl Instructions<Code, Temporary, Immediate> for Backend {
     fn comment(msg: String) -> Code {
         Code::COMMENT(msg)
@@ -965,12 +979,12 @@ impl Instructions<Code, Temporary, Immediate> for Backend {
     fn add_and_jump(temporary: Temporary, immediate: Immediate, instructions: &mut Vec<Code>) {
         match temporary {
             Temporary::Register(register) => {
-                instructions.push(Code::ADDI(register, register, immediate));
+                add_offset(register, immediate, instructions);
                 instructions.push(Code::BR(register));
             }
             Temporary::Spill(position) => {
                 instructions.push(Code::LDR(TEMP, Register::SP, stack_offset(position)));
-                instructions.push(Code::ADDI(TEMP, TEMP, immediate));
+                add_offset(TEMP, immediate, instructions);
                 instructions.push(Code::BR(TEMP));
             }
         }
